@@ -87,7 +87,12 @@ def fault_scenario(idx, d, h, cfg, ks):
         o = {"c": "open", "d": d, "path": f"f{idx}_{k}", "cfg": cfg}
         if d > 5:
             o["probe"] = tree.PROBES
-        sc += [{"c": "arm", "k": k}, dict(o)] + h + [{"c": "flush"}, {"c": "disarm"}, {"c": "drop"}, dict(o), {"c": "drop"}]
+        # every call is followed by a retry line that only runs if the injected failure hit that call
+        hh = []
+        for op in h:
+            hh.append(op)
+            hh.append(dict(op, retry=True))
+        sc += [{"c": "arm", "k": k}, dict(o)] + hh + [{"c": "flush"}, {"c": "disarm"}, {"c": "drop"}, dict(o), {"c": "drop"}]
     return sc
 
 
